@@ -71,7 +71,7 @@ func advOp(t *sim.Tape, fsKind string, uniq string) fsx.Op {
 		"Mkdir", "MkdirAll", "Remove", "RemoveAll", "Rename", "Link", "Symlink", "OpenFile", "Create", "Open", "WriteFile", "ReadFile", "ReadDir",
 		"Truncate", "Chmod", "Chown", "Lchown", "Chtimes", "Chdir", "Getwd", "Stat", "Lstat", "Readlink", "EvalSymlinks", "Abs", "Glob", "WalkDir",
 		"CreateTemp", "MkdirTemp", "Exists", "IsEmpty", "FRead", "FReadAt", "FWrite", "FWriteAt", "FWriteString", "FSeek", "FTruncate", "FStat", "FSync",
-		"FChmod", "FChown", "FChdir", "FClose", "FReadDir", "FReaddirnames", "SetUMask", "Sub",
+		"FChmod", "FChown", "FChdir", "FClose", "FReadDir", "FReaddirnames", "SetUMask", "Sub", "TempDir",
 	}
 	o := fsx.Op{K: kinds[t.Int(len(kinds))]}
 	p := func() string {
